@@ -33,7 +33,7 @@ PURE_METHODS = {'keys', 'values', 'items', 'get', 'size', 'copy', 'index', 'coun
                 'todict', 'flow2class', 'split', 'strip', 'lower', 'upper'}
 MUTATORS = {'append', 'extend', 'insert', 'remove', 'pop', 'clear', 'sort', 'reverse', 'add', 'discard',
             'update', 'setdefault', 'popitem', 'appendleft', 'popleft'}
-IGNORED_CALLS = {'print'}
+IGNORED_CALLS = {'print', 'dprint'}
 
 
 class Effect:
@@ -147,7 +147,7 @@ class Options:
         self.assume_asserts = assume_asserts
         self.ignore_calls = set(IGNORED_CALLS) | set(ignore_calls)
         self.pure_calls = set(pure_calls)
-        self.no_inline = set(no_inline)
+        self.no_inline = set(no_inline) | {'dprint'}
         self.integer_dims = tuple(integer_dims)
         self.volatile_extra = set(volatile_extra)
         self.stable_fields = set(stable_fields)
@@ -164,6 +164,33 @@ class Executor:
         self.volatile = self._volatile_fields()
         self.call_stack: List[FuncInfo] = []
         self.npaths = 0
+        self._ordinals: Dict[int, str] = {}
+
+    def ordinal(self, fctx: FuncInfo, node) -> str:
+        """stable name of a loop / handler: <function>.<pre-order index among the
+        loops and handlers of that function> (no line numbers: a reference
+        function and the code get the same names when their structure agrees)"""
+        k = id(node)
+        if k not in self._ordinals:
+            idx = 0
+            found = None
+            for n in ast.walk(fctx.node):
+                if isinstance(n, (ast.For, ast.While, ast.ExceptHandler)):
+                    idx += 1
+                    if n is node:
+                        found = idx
+                        break
+            # ast.walk is breadth-first; use a deterministic pre-order instead
+            order = []
+            def pre(x):
+                for c in ast.iter_child_nodes(x):
+                    if isinstance(c, (ast.For, ast.While, ast.ExceptHandler)):
+                        order.append(c)
+                    pre(c)
+            pre(fctx.node)
+            pos = [i for i, c in enumerate(order) if c is node]
+            self._ordinals[k] = '%s%d' % (fctx.name.strip('_')[:12] if len(self.call_stack) > 1 else '', (pos[0] + 1) if pos else 0)
+        return self._ordinals[k]
 
     # -- class-level facts --------------------------------------------------
     def _volatile_fields(self) -> set:
@@ -287,29 +314,22 @@ class Executor:
                 outs.append((s2, ex or ('raise', term(v), ln)))
             return outs
         if isinstance(s, ast.Assert):
-            outs = []
-            for s2, b, ex in self.branch(s.test, st, fctx, ln, record=self.opts.split_asserts):
-                if ex:
-                    outs.append((s2, ex))
-                    continue
-                if self.opts.split_asserts:
-                    if b:
+            if self.opts.split_asserts:
+                outs = []
+                for s2, b, ex in self.branch(s.test, st, fctx, ln):
+                    if ex:
+                        outs.append((s2, ex))
+                    elif b:
                         outs.append((s2, ('fall',)))
                     else:
                         outs.append((s2, ('raise', 'AssertionError', ln)))
-                else:
-                    if b:
-                        s2.effects.append(Effect('assert', value=terms.cond_str(self.subst(s.test, s2, fctx)),
-                                                 lineno=ln, epoch=s2.epoch))
-                        outs.append((s2, ('fall',)))
-            if not self.opts.split_asserts:
-                # assume mode: merge to one path, remember the assertion as an effect
-                st2 = st.fork()
-                st2.effects.append(Effect('assert', value=terms.cond_str(self.subst(s.test, st2, fctx)), lineno=ln,
-                                          epoch=st2.epoch))
-                self._assume(s.test, st2, fctx, ln)
-                return [(st2, ('fall',))]
-            return outs
+                return outs
+            # assume mode: one path, the assertion is remembered as an effect and its
+            # literals are assumed to hold
+            st.effects.append(Effect('assert', value=terms.cond_str(self.subst(s.test, st, fctx)), lineno=ln,
+                                     epoch=st.epoch))
+            self._assume(s.test, st, fctx, ln)
+            return [(st, ('fall',))]
         if isinstance(s, ast.While):
             return self.exec_loop(s, st, fctx)
         if isinstance(s, ast.For):
@@ -358,6 +378,7 @@ class Executor:
     # -- loops ------------------------------------------------------------------
     def exec_loop(self, s, st: State, fctx: FuncInfo):
         ln = s.lineno
+        oid = self.ordinal(fctx, s)
         body_writes = block_writes(s.body + getattr(s, 'orelse', []))
         has_yield = any(isinstance(n, (ast.Yield, ast.YieldFrom)) for b in s.body for n in [b] + list(walk_local(b)))
         has_break = _has_break(s.body)
@@ -369,7 +390,7 @@ class Executor:
             it, pre_iter, ex = alts[0]
             if ex:
                 return [(it, ex)]
-        self._havoc(it, s.body, fctx, ln)
+        self._havoc(it, s.body, fctx, oid)
         after = it.fork()
         iter_state = it.fork()
         iter_state.lits = []
@@ -386,7 +407,7 @@ class Executor:
             header = term(pre_iter)
             tgt = s.target
             tstr = ast.unparse(tgt)
-            self.assign(tgt, None, iter_state, fctx, ln, loopvar='@it%d' % ln)
+            self.assign(tgt, None, iter_state, fctx, ln, loopvar='@it%s' % oid)
             target = tstr
             starts = [iter_state]
         paths = []
@@ -417,20 +438,31 @@ class Executor:
         return outs
 
     def _havoc(self, st: State, body, fctx, ln):
+        order: List[str] = []
+
+        def pre(x):
+            tgts = []
+            if isinstance(x, ast.Assign):
+                tgts = x.targets
+            elif isinstance(x, (ast.AugAssign, ast.AnnAssign)):
+                tgts = [x.target]
+            elif isinstance(x, ast.For):
+                tgts = [x.target]
+            elif isinstance(x, ast.NamedExpr):
+                tgts = [x.target]
+            for t in tgts:
+                for nm in _names_in_target(t):
+                    if nm not in order:
+                        order.append(nm)
+            if isinstance(x, (ast.FunctionDef, ast.AsyncFunctionDef, ast.ClassDef, ast.Lambda)):
+                return
+            for c in ast.iter_child_nodes(x):
+                pre(c)
         for n in body:
-            for m in [n] + list(walk_local(n)):
-                tgts = []
-                if isinstance(m, ast.Assign):
-                    tgts = m.targets
-                elif isinstance(m, (ast.AugAssign, ast.AnnAssign)):
-                    tgts = [m.target]
-                elif isinstance(m, ast.For):
-                    tgts = [m.target]
-                elif isinstance(m, ast.NamedExpr):
-                    tgts = [m.target]
-                for t in tgts:
-                    for nm in _names_in_target(t):
-                        st.locals[nm] = name('%s@L%d' % (nm, ln))
+            pre(n)
+        for i, nm in enumerate(order):
+            # loop-carried local: named by position, not by the programmer's identifier
+            st.locals[nm] = name('@L%sv%d' % (ln, i + 1))
         # heap: drop everything a write or a call in the body may change
         writes = block_writes(body)
         for k in list(st.heap):
@@ -446,7 +478,13 @@ class Executor:
     def exec_try(self, s: ast.Try, st: State, fctx):
         ln = s.lineno
         outs = []
-        normal = self.exec_block(s.body, st.fork(), fctx)
+        # whether an exception reaches a handler is a nondeterministic choice, not a
+        # condition of the state: give each alternative its own mode bit so that a
+        # handler path and the normal path are never taken for the same region
+        st0 = st.fork()
+        for h in s.handlers:
+            st0.lits.append((('bit', '@raised:%s' % self.ordinal(fctx, h)), False, h.lineno))
+        normal = self.exec_block(s.body, st0, fctx)
         handled_types = []
         for h in s.handlers:
             if h.type is None:
@@ -475,15 +513,17 @@ class Executor:
         # implicit exceptions raised by calls inside the body
         for h in s.handlers:
             hs = st.fork()
-            self._havoc(hs, s.body, fctx, ln)
+            self._havoc(hs, s.body, fctx, 'T' + self.ordinal(fctx, h))
             # effects of the try body up to the exception are unknown: mark
             tn = ('|'.join(term(e) for e in h.type.elts) if isinstance(h.type, ast.Tuple) else term(h.type)) if h.type else '*'
             hs.effects.append(Effect('except', target=tn, lineno=h.lineno, epoch=hs.epoch, extra='implicit'))
+            for h2 in s.handlers:
+                hs.lits.append((('bit', '@raised:%s' % self.ordinal(fctx, h2)), h2 is h, h.lineno))
             if any(isinstance(n, (ast.Yield, ast.YieldFrom)) for b in s.body for n in [b] + list(walk_local(b))):
                 hs.epoch += 1
                 self._flush_volatile(hs)
             if h.name:
-                hs.locals[h.name] = name('@exc_%d' % h.lineno)
+                hs.locals[h.name] = name('@exc%s' % self.ordinal(fctx, h))
             outs.extend(self.exec_block(h.body, hs, fctx))
         if s.finalbody:
             res = []
